@@ -537,17 +537,17 @@ result_t BusHandler::prepareScan(symbol_t slave, bool full, const string& levels
     }
   } else {
     *reload = true;
-    for (slave = 1; slave != 0; slave++) {  // 0 is known to be a master
-      if (!isValidAddress(slave, false) || isMaster(slave)) {
+    for (symbol_t address = 1; address != 0; address++) {  // 0 is known to be a master
+      if (!isValidAddress(address, false) || isMaster(address)) {
         continue;
       }
-      if (!full && (m_seenAddresses[slave]&SEEN) == 0) {
-        symbol_t master = getMasterAddress(slave);  // check if we saw the corresponding master already
+      if (!full && (m_seenAddresses[address]&SEEN) == 0) {
+        symbol_t master = getMasterAddress(address);  // check if we saw the corresponding master already
         if (master == SYN || (m_seenAddresses[master]&SEEN) == 0) {
           continue;
         }
       }
-      slaves.push_back(slave);
+      slaves.push_back(address);
     }
   }
   if (*reload) {
